@@ -51,6 +51,9 @@ VARIANTS = [
     ("bech32: the separator checks moved into a private helper", "btclib.bech32", lambda s: s.replace("    if pos == -1:\n        raise BTClibValueError(f\"no separator character: {text}\")\n    if pos == 0:\n        raise BTClibValueError(f\"empty HRP: {text}\")\n", "    _assert_separator(pos, text)\n").replace("def _decode(bech: String)", "def _assert_separator(where: int, whole: str) -> None:\n    if where == -1:\n        raise BTClibValueError(f\"no separator character: {whole}\")\n    if where == 0:\n        raise BTClibValueError(f\"empty HRP: {whole}\")\n\n\ndef _decode(bech: String)")),
     ("taproot: the tweak range test given a name", "btclib.script.taproot", lambda s: s.replace("    if t >= secp256k1.n:\n", "    out_of_range = t >= secp256k1.n\n    if out_of_range:\n", 1)),
     ("fee: negative vsize test given a name", "btclib.fee", lambda s: s.replace("    if vsize < 0:\n", "    negative = vsize < 0\n    if negative:\n", 1)),
+    ("bip32: a new predicate that answers False on a refused key", "btclib.bip32.bip32", lambda s: s + "\n\ndef is_derivable(xkey: BIP32Key, der_path: DerPath) -> bool:\n    try:\n        derive_(xkey, der_path)\n    except BTClibValueError:\n        return False\n    return True\n"),
+    ("fee: a new display helper doing Decimal arithmetic", "btclib.fee", lambda s: s + "\n\ndef _display_rate(rate: FeeRate) -> str:\n    shown = Decimal(rate.sats_per_kvbyte)\n    return str(shown / 1000)\n"),
+    ("psbt_signer: a new method with a parameter kept for interface compatibility", "btclib.psbt_signer", lambda s: s.replace("class SoftwareSigner:", "class _Audit:\n    def note(self, what: str, level: int = 0) -> None:\n        print(what)\n\n\nclass SoftwareSigner:", 1)),
     ("script_op_codes: stack size comparison flipped", "btclib.script.engine.script_op_codes", lambda s: s.replace("len(stack) + len(altstack) > MAX_STACK_SIZE", "MAX_STACK_SIZE < len(stack) + len(altstack)")),
 ]
 
